@@ -8,10 +8,22 @@ SimpleEventProvider (incl. context_fn), a user-defined burst EventProvider and D
 ThroughputTracker and a Server whose service time is a ConstantLatency / ExponentialLatency /
 PercentileFittedLatency / user LatencyDistribution built on a value distribution.  Probes (Probe.on,
 Probe.on_many, explicit Probe with start_time) sample the server and the collectors as `probes=`.
+
+Widened configuration space (all new cfg keys are optional, old cfgs keep their meaning):
+  * `bank`: the "server" target is a fan-out entity that clones every arrival to a bank of Servers, one per
+    service-time distribution of SERVICE (+ a zero-latency one, + every PercentileFittedLatency parameter on its
+    own), with per-server concurrency / queue capacity (0, 1, small, unbounded): all variants in one run;
+  * load regimes: light, sustained overload (rate * service time / concurrency well above 1 for the whole run,
+    bounded and unbounded queues), bursts of up to 40 same-instant events per tick, fractional rates;
+  * every stop_after / probe interval / probe start / service time / profile duration / step boundary is drawn
+    from the boundary palette `dur_ms` (values that lose a nanosecond in Instant.from_seconds, absolute times
+    above 1 s, 1-4 decimals);
+  * ramp slopes stay moderate and jump profiles rare (the library's arrival-time integration needs minutes for a
+    steep LinearRampProfile: nanosecond staircase of Instant.from_seconds against adaptive Simpson).
 """
 from __future__ import annotations
 
-from hv.scenarios.base import T, seed_all, stats_of, sub_seed
+from hv.scenarios.base import T, dur_ms, seed_all, stats_of, sub_seed
 
 NAME = "load"
 MODEL = None
@@ -25,55 +37,107 @@ SRC_KINDS = ["constant", "poisson", "prof-const", "ramp-up", "ramp-down", "expli
 SLOW_KINDS = ["spike", "step"]   # jump discontinuities: ~0.3-0.5 s wall per crossing inside the library's integrator
 PROVIDERS = ["simple", "context_fn", "burst", "dfp"]
 SERVICE = ["const", "exp", "pfit", "pfit2", "value-uniform", "value-zipf", "shifted"]
+BANK_EXTRA = ["zero", "pfit-p50", "pfit-p90", "pfit-p99", "pfit-p999", "pfit-p9999", "pfit-all", "minus"]
+REGIMES = ["light", "light", "overload", "overload", "burst"]
 
 
-def _source_cfg(rng, end, slow):
+def _r3(x):
+    x = round(float(x), 3)
+    return int(x) if x.is_integer() else x
+
+
+def _source_cfg(rng, end, slow, regime="light"):
     """One source.  Ramp parameters are kept where the library's arrival-time integration is fast
     (|slope| * lookahead small, see the family report: steeper ramps / ramps to zero make
     ArrivalTimeProvider.next_arrival_time take minutes); they can still be set by hand in a cfg."""
     kind = rng.choice(SLOW_KINDS) if slow else rng.choice(SRC_KINDS)
     poisson = rng.random() < 0.5
-    dur_ms = int(end * 1000) + 4000
+    ramp_ms = _r3(dur_ms(rng, int(end * 1000) + 3000, int(end * 1000) + 6000))
     if poisson:
         r0 = 200
         r1 = rng.choice([230, 260]) if kind == "ramp-up" else rng.choice([140, 170])
     else:
         r0 = rng.choice([60, 100, 150])
         r1 = r0 * rng.choice([2, 3]) if kind == "ramp-up" else r0 // rng.choice([2, 3])
-    n_steps = rng.randint(2, 3)
-    step_t = sorted(rng.sample(range(0, int(end * 1000) - 400, 50), n_steps))
+    n_steps = rng.choice([2, 2, 2, 3])
+    step_t = sorted({0, _r3(dur_ms(rng, 100, int(end * 1000) - 400))} if n_steps == 2 else
+                    {0, _r3(dur_ms(rng, 100, int(end * 500))), _r3(dur_ms(rng, int(end * 500), int(end * 1000) - 400))})
     return {
         "kind": kind,
         "provider": rng.choice(PROVIDERS),
         "poisson": poisson,
-        "rate": rng.choice([5, 10, 25, 50, 100, 200]),
-        "r0": r0, "r1": r1, "dur_ms": dur_ms,
+        "rate": (rng.choice([5, 10, 25, 50, 100, 200, 0.5, 7.3, 33.3, 0]) if regime != "overload"
+                 else rng.choice([200, 400, 800])),
+        "r0": r0, "r1": r1, "dur_ms": ramp_ms,
         "base": rng.choice([10, 20, 40]), "spike": rng.choice([100, 150, 300]),
-        "warm_ms": rng.randrange(100, int(end * 500), 50),
-        "spike_ms": rng.randrange(50, 600, 50),
+        "warm_ms": _r3(dur_ms(rng, 100, int(end * 500))),
+        # every jump of the profile inside the run costs ~0.5-2 s wall in the library's integrator: mostly the spike
+        # is still on at end_time (one jump), sometimes it ends inside the run (two jumps)
+        "spike_ms": _r3(dur_ms(rng, 50, 600)) if rng.random() < 0.25 else int(end * 1000) + 500,
         "steps": [[t, rng.choice([0, 20, 60, 120]) if i else rng.choice([20, 60, 120])]
                   for i, t in enumerate(step_t)],
         "stop": rng.choice(["float", "instant", "none"]),
+        # absolute stop time from the boundary palette (before, at and after end_time)
+        "stop_ms": _r3(dur_ms(rng, 200, int(end * 1000) + 300)),
+        "start_ms": _r3(dur_ms(rng, 0, 1500, zero=True)),   # explicit ArrivalTimeProvider(start_time=...)
         "target": rng.choice(["server", "server", "counter", "sink", "lat", "tput", "keys"]),
-        "burst": rng.randint(1, 3),
-        "zipf_s": rng.choice([0.0, 0.8, 1.0, 1.5, 2.5]),
-        "n_keys": rng.choice([3, 10, 50]),
+        "burst": rng.randint(1, 3) if regime != "burst" else rng.choice([8, 20, 40]),
+        "zipf_s": rng.choice([0.0, 0.8, 1.0, 1.5, 2.5, 4.0]),
+        "n_keys": rng.choice([1, 3, 10, 50, 300]),
     }
 
 
 def gen_cfg(rng):
-    end = rng.choice([2.0, 3.0, 4.0])
-    sources = [_source_cfg(rng, end, slow=(i == 0 and rng.random() < 0.15)) for i in range(rng.randint(2, 4))]
+    end = rng.choice([2.0, 3.0, 4.0]) if rng.random() > 0.1 else rng.choice([8.0, 10.0])
+    regime = rng.choice(REGIMES)
+    bank = rng.random() < 0.5
+    n_src = rng.randint(2, 4)
+    sources = [_source_cfg(rng, end, slow=(i == 0 and end < 6 and rng.random() < 0.08), regime=regime) for i in range(n_src)]
     sources[-1]["target"] = "server"  # the server (and its service-time distribution) is always loaded
+    if sources[-1]["rate"] == 0:
+        sources[-1]["rate"] = 25
+    if regime == "overload":
+        # only the stream into the server is heavy; the others stay light
+        for sc in sources[:-1]:
+            sc["rate"] = rng.choice([5, 10, 25, 50, 100])
+        if sources[-1]["kind"] in ("ramp-up", "ramp-down") + tuple(SLOW_KINDS):
+            sources[-1]["kind"] = rng.choice(["constant", "poisson", "explicit", "prof-const"])
+    # wall-time budget: expected deliveries per run stay bounded (a request into a Server costs ~6 deliveries, a
+    # clone into every server of the bank 15 x that)
+    bank_mode = "all" if bank and regime != "overload" and rng.random() < 0.35 else "rr"
+    for sc in sources:
+        per = 3.0
+        if sc["target"] == "server":
+            per = 6.0 * (1 if not bank else (2 if bank_mode == "rr" else 16))
+        k = sc["kind"]
+        eff = {"ramp-up": max(sc["r0"], sc["r1"]), "ramp-down": max(sc["r0"], sc["r1"]),
+               "spike": max(sc["base"], sc["spike"]), "step": max(r for _, r in sc["steps"])}.get(k, sc["rate"])
+        cost = eff * sc["burst"] * end * per
+        limit = 20000 if sc["target"] == "server" else 8000
+        if cost > limit:
+            f = limit / cost
+            sc["rate"] = max(1, int(sc["rate"] * f)) if sc["rate"] >= 2 else sc["rate"]
+            sc["r0"], sc["r1"] = max(2, int(sc["r0"] * f)), max(1, int(sc["r1"] * f))
+            sc["base"], sc["spike"] = max(1, int(sc["base"] * f)), max(2, int(sc["spike"] * f))
+            sc["steps"] = [[t, int(r * f)] for t, r in sc["steps"]]
+    if regime == "overload":
+        svc = dur_ms(rng, 20, 120)
+    else:
+        svc = dur_ms(rng, 0.2, 40, zero=True)
     return {
         "end": end,
+        "regime": regime,
         "sources": sources,
         "service": rng.choice(SERVICE),
-        "svc_ms": rng.randint(1, 40),
-        "conc": rng.randint(1, 2),
-        "qcap": rng.choice([None, None, 5, 20]),
-        "probe_ms": rng.choice([10, 50, 100, 250]),
-        "probe_start_ms": rng.choice([0, 500, 1000]),
+        "svc_ms": svc,
+        "conc": rng.randint(1, 2) if regime != "overload" else 1,
+        "qcap": rng.choice([None, None, 0, 1, 5, 20]),
+        "bank": bank,
+        "bank_mode": bank_mode,
+        "bank_conc": [rng.randint(1, 3) for _ in range(4)],
+        "bank_qcap": [rng.choice([None, 0, 1, 5, 50]) for _ in range(5)],
+        "probe_ms": _r3(dur_ms(rng, 5 if end < 6 else 20, 1500)),
+        "probe_start_ms": _r3(dur_ms(rng, 0, 2500, zero=True)),
         "probes": rng.randint(0, 3),
     }
 
@@ -167,22 +231,42 @@ def build(cfg, seed):
 
     # ---- service-time distribution
     m = cfg["svc_ms"] / 1000.0
-    kind = cfg["service"]
-    if kind == "const":
-        svc = ConstantLatency(m)
-    elif kind == "exp":
-        svc = ExponentialLatency(m)
-    elif kind == "pfit":
-        svc = PercentileFittedLatency(p50=m, p99=m * 6)
-    elif kind == "pfit2":
-        svc = PercentileFittedLatency(p90=m * 2, p999=m * 8, p9999=m * 12)
-    elif kind == "value-uniform":
-        svc = ValueLatency(UniformDistribution([1, 2, 5, cfg["svc_ms"], 2 * cfg["svc_ms"]],
-                                               seed=sub_seed(seed, "svc-u")), m)
-    elif kind == "value-zipf":
-        svc = ValueLatency(ZipfDistribution([cfg["svc_ms"], 1, 3, 50, 120], s=1.2, seed=sub_seed(seed, "svc-z")), m)
-    else:
-        svc = ExponentialLatency(Duration.from_seconds(m)) + 0.002  # __add__: shifted copy
+    mp = m if m > 0 else 0.001      # the exponential family needs a positive mean
+
+    def make_service(kind, tag):
+        if kind == "const":
+            return ConstantLatency(m)
+        if kind == "zero":
+            return ConstantLatency(0.0)
+        if kind == "exp":
+            return ExponentialLatency(mp)
+        if kind == "pfit":
+            return PercentileFittedLatency(p50=mp, p99=mp * 6)
+        if kind == "pfit2":
+            return PercentileFittedLatency(p90=mp * 2, p999=mp * 8, p9999=mp * 12)
+        if kind == "pfit-p50":
+            return PercentileFittedLatency(p50=mp)
+        if kind == "pfit-p90":
+            return PercentileFittedLatency(p90=mp * 2)
+        if kind == "pfit-p99":
+            return PercentileFittedLatency(p99=mp * 4)
+        if kind == "pfit-p999":
+            return PercentileFittedLatency(p999=mp * 7)
+        if kind == "pfit-p9999":
+            return PercentileFittedLatency(p9999=mp * 9)
+        if kind == "pfit-all":
+            return PercentileFittedLatency(p50=mp, p90=mp * 2, p99=mp * 5, p999=mp * 7, p9999=mp * 9)
+        if kind == "value-uniform":
+            return ValueLatency(UniformDistribution([1, 2, 5, cfg["svc_ms"], 2 * cfg["svc_ms"]],
+                                                    seed=sub_seed(seed, *tag, "svc-u")), m)
+        if kind == "value-zipf":
+            return ValueLatency(ZipfDistribution([cfg["svc_ms"], 1, 3, 50, 120], s=1.2,
+                                                 seed=sub_seed(seed, *tag, "svc-z")), m)
+        if kind == "minus":
+            return ExponentialLatency(mp + 0.001) - 0.001     # __sub__: copy with a smaller mean
+        return ExponentialLatency(Duration.from_seconds(mp)) + 0.002  # __add__: shifted copy
+
+    svc = make_service(cfg["service"], ())
 
     lat = LatencyTracker("lat")
     tput = ThroughputTracker("tput")
@@ -192,12 +276,46 @@ def build(cfg, seed):
     server = Server("srv", concurrency=cfg["conc"], service_time=svc, queue_capacity=cfg["qcap"],
                     downstream=keys_after)
     keys = KeyCounter("keys", downstream=tput)
-    targets = {"server": server, "counter": counter, "sink": sink, "lat": lat, "tput": tput, "keys": keys}
 
-    sources, providers = [], []
+    class FanOut(Entity):
+        """forwards every arrival to the main server and clones it (same instant) to the servers of the bank:
+        to all of them (`bank_mode` "all") or to one of them in turn ("rr")"""
+
+        def __init__(self, name, main, others, mode):
+            super().__init__(name)
+            self.main, self.others, self.mode = main, others, mode
+            self.n = 0
+
+        def handle_event(self, event):
+            self.n += 1
+            tg = [self.main]
+            if self.others:
+                tg += self.others if self.mode == "all" else [self.others[self.n % len(self.others)]]
+            return [Event(time=self.now, event_type=event.event_type, target=sv, context=dict(event.context))
+                    for sv in tg]
+
+    bank = []
+    if cfg.get("bank", False):
+        bc, bq = cfg["bank_conc"], cfg["bank_qcap"]
+        for j, kind in enumerate(SERVICE + BANK_EXTRA):
+            bank.append(Server(f"srv-{kind}", concurrency=bc[j % len(bc)], service_time=make_service(kind, ("bank", j)),
+                               queue_capacity=bq[j % len(bq)], downstream=keys_after))
+    fan = FanOut("fan", server, bank, cfg.get("bank_mode", "rr"))
+    targets = {"server": fan if bank else server, "counter": counter, "sink": sink, "lat": lat, "tput": tput,
+               "keys": keys}
+
+    sources, providers, dists = [], [], []
+
+    def reg(d):
+        dists.append(d)
+        return d
     for i, sc in enumerate(cfg["sources"]):
         target = targets[sc["target"]]
-        if sc["stop"] == "float":
+        if "stop_ms" in sc and sc["stop"] != "none":
+            st = sc["stop_ms"] / 1000.0
+            stop_inst = Instant.from_seconds(st)
+            stop_arg = st if sc["stop"] == "float" else stop_inst
+        elif sc["stop"] == "float":
             stop_arg, stop_inst = stop_s, Instant.from_seconds(stop_s)
         elif sc["stop"] == "instant":
             stop_arg = stop_inst = Instant.from_seconds(stop_s - 0.1)
@@ -206,24 +324,25 @@ def build(cfg, seed):
         names = [f"user-{j}" for j in range(sc["n_keys"])]
         prov = None
         if sc["provider"] == "context_fn":
-            ud = UniformDistribution(names, seed=sub_seed(seed, "ctx", i))
+            ud = reg(UniformDistribution(names, seed=sub_seed(seed, "ctx", i)))
             prov = SimpleEventProvider(
                 target, f"Ctx{i}", stop_inst,
                 context_fn=lambda time, count, ud=ud: {"created_at": time, "request_id": count,
                                                       "customer_id": ud.sample(), "region": "static"})
         elif sc["provider"] == "burst":
-            prov = BurstProvider(target, sc["burst"], ZipfDistribution(names, s=sc["zipf_s"],
-                                                                        seed=sub_seed(seed, "burst", i)), stop_inst)
+            prov = BurstProvider(target, sc["burst"], reg(ZipfDistribution(names, s=sc["zipf_s"],
+                                                                            seed=sub_seed(seed, "burst", i))), stop_inst)
         elif sc["provider"] == "dfp":
             prov = DistributedFieldProvider(
                 target=target, event_type=f"Dfp{i}",
                 field_distributions={
-                    "customer_id": ZipfDistribution(names, s=sc["zipf_s"], seed=sub_seed(seed, "dfp-c", i)),
+                    "customer_id": reg(ZipfDistribution(names, s=sc["zipf_s"], seed=sub_seed(seed, "dfp-c", i))),
                     "region": UniformDistribution(["us-east", "us-west", "eu", "ap-south"],
                                                   seed=sub_seed(seed, "dfp-r", i)),
                     "size": ZipfDistribution(range(1, 20), s=1.0, seed=sub_seed(seed, "dfp-s", i)),
                 },
-                static_fields={"api_version": "v2"}, stop_after=stop_inst)
+                static_fields={"api_version": "v2"} if i % 2 == 0 or "stop_ms" not in sc else None,
+                stop_after=stop_inst)
         providers.append(prov)
         common = {"name": f"src{i}"}
         if prov is not None:
@@ -242,7 +361,8 @@ def build(cfg, seed):
                 providers[-1] = prov
             atp_cls = PoissonArrivalTimeProvider if sc["poisson"] else ConstantArrivalTimeProvider
             src = Source(name=f"src{i}", event_provider=prov,
-                         arrival_time_provider=atp_cls(ConstantRateProfile(rate=rate), start_time=Instant.Epoch))
+                         arrival_time_provider=atp_cls(ConstantRateProfile(rate=rate),
+                                                       start_time=Instant.from_seconds(sc.get("start_ms", 0) / 1000.0)))
         else:
             if k == "prof-const":
                 profile = ConstantRateProfile(rate=rate)
@@ -277,7 +397,7 @@ def build(cfg, seed):
         probes.append(p)
         pdata["keys.missing"] = d2
 
-    sim = Simulation(end_time=T(end), sources=sources, entities=[lat, tput, counter, sink, keys, keys_after, server],
+    sim = Simulation(end_time=T(end), sources=sources, entities=[lat, tput, counter, sink, keys, keys_after, server, fan, *bank],
                      probes=probes)
 
     def data_obs(d):
@@ -290,6 +410,15 @@ def build(cfg, seed):
                     "bucket": b.to_dict(), "rate": [list(v) for v in d.rate(1.0).values],
                     "between": d.between(0.5, 1.5).count()}
         return read
+
+    def dist_view(d):
+        out = {"type": type(d).__name__, "size": d.size, "pop": list(d.population)[:3], "next": d.sample_n(4)}
+        if isinstance(d, ZipfDistribution):
+            out.update(s=d.s, p1=d.probability(1), top=d.top_n_probability(min(3, d.size)),
+                       pv=d.probability_for_value(d.population[-1]), ef=d.expected_frequency(1, 1000))
+        else:
+            out.update(p=d.probability())
+        return out
 
     obs = {
         "server": stats_of(server),
@@ -306,7 +435,18 @@ def build(cfg, seed):
                                "by_region": sorted(keys_after.by_region.items())},
         "sources": lambda: [[s.name, s.generated_count] for s in sources],
         "providers": lambda: [getattr(p, "generated", getattr(p, "_generated", None)) for p in providers],
+        "server.more": lambda: {"util": server.utilization, "active": server.active_requests,
+                                "avg_svc": server.average_service_time, "avail": server.available_capacity,
+                                "p50": server.get_service_time_percentile(0.5),
+                                "p99": server.get_service_time_percentile(0.99)},
+        "fan": lambda: fan.n,
+        "dists": lambda: [dist_view(d) for d in dists],
+        "lat.series": lambda: {"times": lat.data.times()[:5], "raw": lat.data.raw_values()[-5:]},
     }
+    for sv in bank:
+        obs["bank." + sv.name] = (lambda sv=sv: {"stats": stats_of(sv)(), "acc": sv.stats_accepted,
+                                                 "drop": sv.stats_dropped, "depth": sv.depth,
+                                                 "util": sv.utilization, "avg_svc": sv.average_service_time})
     for kk in sorted(pdata):
         obs["probe." + kk] = data_obs(pdata[kk])
     return sim, obs
